@@ -24,6 +24,7 @@ from pyvc import sym
 import holopy.inference.nmpfit as hn
 import holopy.inference.scipyfit as hs
 import holopy.inference.interface as hi
+from holopy.inference.interface import fit as hi_fit
 from holopy.inference.model import ExactModel, AlphaModel
 from holopy.inference.nmpfit import NmpfitStrategy
 from holopy.inference.scipyfit import LeastSquaresScipyStrategy
@@ -72,7 +73,7 @@ class _OpaqueForward:
         return detector.copy(data=vals.reshape(detector.shape))
 
 
-def _priors(c):
+def _priors(c, x_choice=True):
     """one prior of every kind `minimize` distinguishes: bounded both sides, bounded below only (what fit(data, scatterer)
     builds), unbounded Gaussian, bounded Gaussian - bounds, guesses, widths symbolic"""
     lo_r, hi_r = c.real("r_lo", sample=(0.1, 0.4)), c.real("r_hi", sample=(0.8, 1.5))
@@ -82,9 +83,17 @@ def _priors(c):
     mu_z, sd_z = c.real("z_mu", sample=(4, 6)), c.real("z_sd", pos=True, sample=(0.5, 2))
     lo_z, hi_z = c.real("z_lo", sample=(1, 3.9)), c.real("z_hi", sample=(6.1, 9))
     c.requires(c.and_(lo_r > 0, lo_r < g_r, g_r < hi_r, g_n > 0.01, lo_z > 0, lo_z < mu_z, mu_z < hi_z))
-    pri = dict(n=Uniform(0, INF, g_n), r=Uniform(lo_r, hi_r, g_r), x=Gaussian(mu_x, sd_x),
+    # the in-plane position: an unbounded Gaussian, or a bounded Uniform whose guess may be NEGATIVE (the scale factor is |guess|)
+    x_kind = c.choice("x_prior", ["gaussian", "bounded uniform"]) if x_choice else "gaussian"
+    if x_kind == "gaussian":
+        x_prior, x_bounds = Gaussian(mu_x, sd_x), (None, None)
+    else:
+        lo_x, hi_x = c.real("x_lo", sample=(-4, -2)), c.real("x_hi", sample=(2, 4))
+        c.requires(c.and_(lo_x < mu_x, mu_x < hi_x))
+        x_prior, x_bounds = Uniform(lo_x, hi_x, mu_x), (lo_x, hi_x)
+    pri = dict(n=Uniform(0, INF, g_n), r=Uniform(lo_r, hi_r, g_r), x=x_prior,
                z=BoundedGaussian(mu_z, sd_z, lo_z, hi_z))
-    bounds = dict(n=(0, None), r=(lo_r, hi_r), x=(None, None), z=(lo_z, hi_z))
+    bounds = dict(n=(0, None), r=(lo_r, hi_r), x=x_bounds, z=(lo_z, hi_z))
     return pri, bounds
 
 
@@ -92,8 +101,8 @@ NAMES = ['n', 'r', 'center.0', 'center.2']
 KEYS = ['n', 'r', 'x', 'z']
 
 
-def _model(c, fwd, sigma):
-    pri, bounds = _priors(c)
+def _model(c, fwd, sigma, x_choice=True):
+    pri, bounds = _priors(c, x_choice)
     sph = Sphere(n=pri['n'], r=pri['r'], center=(pri['x'], 0.4, pri['z']))
     model = ExactModel(sph, calc_func=fwd, theory=AbstractPointTheory(), noise_sd=sigma)
     return model, [pri[k] for k in KEYS], [bounds[k] for k in KEYS]
@@ -144,6 +153,12 @@ class _Optimiser:
             xs = list(self.calls[0]['answer'])                 # A4: same question, same answer
             r1 = list(fcn(xs))
         elif c.symbolic or all(n in c.given for n in names):
+            # the optimiser's own precondition is the CALLER's obligation - stated here, before anything about the answer is assumed
+            # (an ill-formed question would make assumption A1 unsatisfiable and everything after it vacuous)
+            for x0_, (lo, hi) in zip(x0, limits):
+                if lo is not None and hi is not None:
+                    c.ensures("lower-limit-below-upper-limit", c.lt(lo, hi, tol=0))
+                c.ensures("start-within-the-limits", c.and_(True if lo is None else c.ge(x0_, lo), True if hi is None else c.le(x0_, hi)))
             xs = [c.real(n) for n in names]
             for x, (lo, hi) in zip(xs, limits):                 # A1
                 if lo is not None:
@@ -244,7 +259,7 @@ def _fit_contract(kind, part):
     def body(c):
         fwd = _OpaqueForward()
         sigma = c.real("sigma", pos=True, sample=(0.05, 0.5))
-        model, priors, bounds = _model(c, fwd, sigma)
+        model, priors, bounds = _model(c, fwd, sigma, x_choice=(kind == "nmpfit" and part == "wiring"))
         data = _image(c)
         data_before = data.values.copy()
         strategy = NmpfitStrategy() if kind == "nmpfit" else LeastSquaresScipyStrategy()
@@ -281,6 +296,11 @@ def _fit_contract(kind, part):
                 c.ensures("limits-are-the-priors-bounds", c.and_((lo is None) == (blo is None), (hi is None) == (bhi is None),
                                                                  True if blo is None or lo is None else c.eq(lo * s, blo),
                                                                  True if bhi is None or hi is None else c.eq(hi * s, bhi)))
+                if lo is not None and hi is not None and not c.symbolic:
+                    c.ensures("lower-limit-below-upper-limit", c.lt(lo, hi, tol=0))
+            if not c.symbolic:          # (symbolically these two are stated inside the optimiser stand-in, before its answer is assumed)
+                for x0_, (lo, hi) in zip(first['x0'], first['limits']):
+                    c.ensures("start-within-the-limits", c.and_(True if lo is None else c.ge(x0_, lo), True if hi is None else c.le(x0_, hi)))
         # --- what comes back
         c.ensures("parameter-names-are-the-models", list(got) == NAMES and result._names == NAMES and list(model.parameters) == NAMES)
         c.ensures("reported-parameters-are-the-optimisers-answer-unscaled", c.and_(*[c.eq(v, x * s) for v, x, s in zip(rep, first['answer'], sf)]))
@@ -453,3 +473,113 @@ def subset_result_hologram(c):
     c.ensures("guess-hologram-is-the-forward-model-at-the-guess",
               c.eq(guess.transpose('x', 'y', 'z').values, c.call(model.forward, model.initial_guess, image).transpose('x', 'y', 'z').values))
     c.canary("hologram-independent-of-parameters", c.eq(got.transpose('x', 'y', 'z').values, guess.transpose('x', 'y', 'z').values))
+
+
+# ------------------------------------------------------------------------- the real optimisers on a small smooth problem (native)
+def _toy_forward(detector, scatterer, **kw):
+    """a smooth, identifiable stand-in for the hologram calculation: rings centred on (x, 1.5) whose contrast, pitch and chirp are
+    r, n and z"""
+    if 'flat' in detector.dims or 'point' in detector.dims:        # a flattened / subset detector: one (x, y) per point
+        X, Y = np.asarray(detector.x.values, dtype=float), np.asarray(detector.y.values, dtype=float)
+    else:
+        X, Y = np.meshgrid(np.asarray(detector.x.values, dtype=float), np.asarray(detector.y.values, dtype=float), indexing='ij')
+    n, r = float(scatterer.n), float(scatterer.r)
+    x, z = float(scatterer.center[0]), float(scatterer.center[2])
+    rho2 = (X - x) ** 2 + (Y - 1.5) ** 2
+    vals = 1 + r * np.cos(n * rho2 * 6.0 / z) * np.exp(-rho2 / z)
+    return detector.copy(data=vals.reshape(detector.shape))
+
+
+_TRUTHS = [dict(n=1.5587708783751293, r=0.37811741739995575, x=1.4170659643789274, z=5.977345793008315),
+           dict(n=1.6563072511421222, r=0.5257787332960789, x=-1.910080642530168, z=5.831077036164981),
+           dict(n=1.42, r=0.61, x=0.9, z=7.3)]
+_GUESS_FACTORS = [dict(n=1.0205, r=1.0065, x=1.0096, z=0.98), dict(n=0.98, r=1.0172, x=1.0197, z=0.9707), dict(n=1.013, r=0.985, x=0.99, z=1.02)]
+# every (truth, parameter, side): the start has that parameter exactly on that bound of its prior; evaluated on the FIRST native run of
+# every check, so that the verdict about on-bound starts does not depend on the sample
+FIXED_CASES = [(t, par, side) for t in range(3) for par in ('n', 'r', 'x', 'z') for side in ('lower', 'upper')]
+_fixed_done = [False]
+
+
+def _fixed_recovery_cases(c):
+    if _fixed_done[0]:
+        return
+    _fixed_done[0] = True
+    for t, par, side in FIXED_CASES:
+        truth = _TRUTHS[t]
+        guess = {k: truth[k] * _GUESS_FACTORS[t][k] for k in truth}
+        lo = {k: min(0.5 * truth[k], 1.5 * truth[k]) for k in truth}
+        hi = {k: max(0.5 * truth[k], 1.5 * truth[k]) for k in truth}
+        if side == 'lower':
+            guess[par] = min(guess[par], truth[par] - 0.02 * abs(truth[par]))
+            lo[par] = guess[par]
+        else:
+            guess[par] = max(guess[par], truth[par] + 0.02 * abs(truth[par]))
+            hi[par] = guess[par]
+        pri = {k: Uniform(lo[k], hi[k], guess[k]) for k in truth}
+        det = data_grid(np.zeros((10, 10)), spacing=0.3, medium_index=1.33, illum_wavelen=0.66, illum_polarization=(1, 0))
+        det = det.assign_coords(x=(np.linspace(-3, 3, 10) if truth['x'] < 0 else np.linspace(0, 3, 10)))
+        data = _toy_forward(det, Sphere(n=truth['n'], r=truth['r'], center=(truth['x'], 0.0, truth['z'])))
+        model = ExactModel(Sphere(n=pri['n'], r=pri['r'], center=(pri['x'], 0.0, pri['z'])), calc_func=_toy_forward, theory=AbstractPointTheory(),
+                           noise_sd=0.01)
+        res = hi_fit(data, model, strategy=NmpfitStrategy())
+        got = dict(zip(['n', 'r', 'x', 'z'], [float(_sc(v)) for v in res.parameters.values()]))
+        c.ensures("nmpfit-recovers-from-a-start-on-a-bound: truth %d, %s on its %s bound" % (t, par, side),
+                  all(abs(got[k] - truth[k]) <= 2e-4 * abs(truth[k]) for k in truth),
+                  detail="truth %r; start %r; result %r" % (truth, guess, got))
+
+
+@contract("C13", "fit_recovery_native", [NM + "NmpfitStrategy.fit", NM + "NmpfitStrategy.minimize", SF + "LeastSquaresScipyStrategy.fit",
+                                         "holopy.inference.third_party.nmpfit:mpfit.__init__", IF + "fit"], native_only=True,
+          bounded="native sampling: the REAL optimisers on a smooth four-parameter problem (10x10 noise-free image), starts within 3 % of the "
+                  "truth, in the interior or exactly on a prior's lower / upper bound, positive and negative parameter values")
+def fit_recovery_native(c):
+    """with the real optimisers: fitting noise-free data generated by the model's own forward calculation from a start within a few
+    percent recovers the generating parameters, never returns a worse misfit than the start, keeps every parameter within its
+    prior's bounds, and a second fit of the same objects gives the same result - also when the start lies on a bound"""
+    which = c.choice("strategy", ["nmpfit", "scipy lsq"])
+    _fixed_recovery_cases(c)
+    start = c.choice("start", ["interior", "a parameter on its upper bound", "a parameter on its lower bound", "from the truth"])
+    x_sign = c.choice("in-plane position", ["positive", "negative"])
+    truth = dict(n=c.real("n", sample=(1.3, 1.7)), r=c.real("r", sample=(0.3, 0.7)), x=c.real("x", sample=(0.8, 2.0)), z=c.real("z", sample=(4, 8)))
+    if x_sign == "negative":
+        truth['x'] = -truth['x']
+    pert = {k: 1 + c.real("perturbation_" + k, sample=(-0.03, 0.03)) for k in truth}
+    guess = {k: (truth[k] if start == "from the truth" else truth[k] * pert[k]) for k in truth}
+    lo = {k: min(0.5 * truth[k], 1.5 * truth[k]) for k in truth}
+    hi = {k: max(0.5 * truth[k], 1.5 * truth[k]) for k in truth}
+    pegged = c.choice("parameter_on_the_bound", ["n", "r", "x", "z"])
+    if start == "a parameter on its upper bound":
+        hi[pegged] = guess[pegged] = max(guess[pegged], truth[pegged] * (1.02 if truth[pegged] > 0 else 0.98))
+    if start == "a parameter on its lower bound":
+        lo[pegged] = guess[pegged] = min(guess[pegged], truth[pegged] * (0.98 if truth[pegged] > 0 else 1.02))
+    pri = {k: Uniform(lo[k], hi[k], guess[k]) for k in truth}
+    xs = np.linspace(-3, 3, 10) if x_sign == "negative" else np.linspace(0, 3, 10)
+    det = data_grid(np.zeros((10, 10)), spacing=0.3, medium_index=1.33, illum_wavelen=0.66, illum_polarization=(1, 0))
+    det = det.assign_coords(x=xs)
+    data = _toy_forward(det, Sphere(n=truth['n'], r=truth['r'], center=(truth['x'], 0.0, truth['z'])))
+    model = ExactModel(Sphere(n=pri['n'], r=pri['r'], center=(pri['x'], 0.0, pri['z'])), calc_func=_toy_forward, theory=AbstractPointTheory(),
+                       noise_sd=0.01)
+    strategy = NmpfitStrategy() if which == "nmpfit" else LeastSquaresScipyStrategy()
+    names = ['n', 'r', 'center.0', 'center.2']
+    key = dict(zip(names, ['n', 'r', 'x', 'z']))
+    o = c.outcome(hi_fit, data, model, strategy=strategy)
+    c.ensures("no-unexpected-exception", o.ok, detail=repr(o.exc))
+    if not o.ok:
+        return
+    res = o.value
+    got = {key[k]: float(_sc(v)) for k, v in res.parameters.items()}
+    c.ensures("parameter-names-are-the-models", list(res.parameters) == names)
+    chi2 = (lambda p: float((((_toy_forward(det, Sphere(n=p['n'], r=p['r'], center=(p['x'], 0.0, p['z']))) - data) / 0.01) ** 2).sum()))
+    c.ensures("misfit-not-worse-than-the-start", chi2(got) <= chi2(guess) * (1 + 1e-9) + 1e-12,
+              detail="chi2 at the result %.6g, at the start %.6g" % (chi2(got), chi2(guess)))
+    if which == "nmpfit":
+        c.ensures("within-prior-bounds", all(lo[k] - 1e-12 * abs(lo[k]) <= got[k] <= hi[k] + 1e-12 * abs(hi[k]) for k in truth),
+                  detail="result %r, bounds %r" % (got, {k: (lo[k], hi[k]) for k in truth}))
+    if which == "scipy lsq" or start in ("interior", "from the truth"):
+        # (for nmpfit, starts ON a bound are covered by the fixed cases above, deterministically)
+        c.ensures("recovers-the-generating-parameters", all(abs(got[k] - truth[k]) <= 2e-4 * abs(truth[k]) for k in truth),
+                  detail="start %s; truth %r, start values %r, result %r" % (start, truth, guess, got))
+    again = hi_fit(data, model, strategy=strategy)
+    c.ensures("repeatable", all(float(_sc(again.parameters[k])) == float(_sc(res.parameters[k])) for k in names))
+    c.ensures("best-fit-hologram-is-the-forward-model", bool(np.allclose(np.sort(np.asarray(res.hologram.values, dtype=float).ravel()),
+                                                                          np.sort(_toy_forward(det, Sphere(n=got['n'], r=got['r'], center=(got['x'], 0.0, got['z']))).values.ravel()))))
